@@ -87,6 +87,7 @@ type GhostVar struct {
 	Name  string
 	Type  string
 	Field bool
+	Immutable bool
 }
 
 type Specs struct {
@@ -159,7 +160,13 @@ func (sp *Specs) LoadFile(path, defaultPkg string) error {
 		case "ghostfield":
 			cur = nil
 			n, t := splitWord(rest)
-			sp.Ghosts["."+n] = &GhostVar{Name: n, Type: strings.TrimSpace(t), Field: true}
+			t = strings.TrimSpace(t)
+			imm := false
+			if strings.HasSuffix(t, " immutable") {
+				imm = true
+				t = strings.TrimSpace(strings.TrimSuffix(t, " immutable"))
+			}
+			sp.Ghosts["."+n] = &GhostVar{Name: n, Type: t, Field: true, Immutable: imm}
 		default:
 			if cur == nil {
 				return fail(fmt.Errorf("directive %q outside a func block", word))
